@@ -59,7 +59,8 @@ structure CInv (cl0 : Cluster) (ops : List Op) : Prop where
     ∀ s, (arun cl0 ops).servers[i]? = some s → e.gen.toNat < s.generation.toNat
   uniq : ∀ (i : Nat) (k k' : Key) (e e' : Entry), Was cl0 ops i k e → Was cl0 ops i k' e' → e.gen = e'.gen → k = k' ∧ e = e'
   l1 : ∀ (c : Nat) (k : Key) (e : Entry), labs (arun cl0 ops) c k = some e →
-    ∃ e', Was cl0 ops (shard cl0.servers.length k) k e' ∧ e'.val = e.val ∧ e'.deadline = e.deadline ∧ e'.gen = e.gen
+    ∃ e', Was cl0 ops (shard cl0.servers.length k) k e' ∧ e'.val = e.val ∧ e'.deadline = e.deadline ∧ e'.gen = e.gen ∧
+      ∀ t ∈ backTrigs e'.trigs, t ∈ e.trigs
   count : ∀ (i : Nat) (s : State), (arun cl0 ops).servers[i]? = some s → s.generation.toNat ≤ ops.length
 
 /-- a cluster whose caches are all empty -/
@@ -181,10 +182,10 @@ theorem cinv_snoc {cl0 : Cluster} {ops : List Op} (h : CInv cl0 ops) (hlen : ops
       rw [hl'] at hl
       simp only at hl
       obtain ⟨l, hl0, hr⟩ := heff.l1 c l' hl'
-      rcases hr.ent k e hl with h1 | ⟨es, h1, h2, h3, h4⟩
+      rcases hr.ent k e hl with h1 | ⟨es, h1, h2, h3, h4, h5⟩
       · obtain ⟨e', w, r⟩ := h.l1 c k e (by simp [labs, hl0, h1])
         exact ⟨e', was_mono op w, r⟩
-      · refine ⟨es, was_mono op (was_cur ?_), h2, h3, h4⟩
+      · refine ⟨es, was_mono op (was_cur ?_), h2, h3, h4, h5⟩
         simp only [home, h.len] at h1
         exact h1
   · -- count
